@@ -27,6 +27,15 @@ list() / indexing / lengths in between, for all seven container classes incl. Re
 of props/c17_cursors.py, judged by c17_cursor_case of Model/Cursors.v (signatures
 c17-<class>-<axis>-[interleaved-]iteration-{wrong-item,ends-early,raises}[:shared-position], ...-index-during-iteration-
 wrong-result, ...-item-wrong-class, ...-yielded-item-changed-later, ...-container-changed).
+
+The containers above have at most 4 bins / patches and are indexed with python ints, slices and lists.  LARGE axes (100 .. 400,
+thorough .. 2000 patches or bins) and every REPRESENTATION of the index values (numpy integer scalars, integer arrays of
+all eight dtypes incl. strided / byte-swapped / read-only ones, lists of numpy scalars, boolean masks, slices with numpy
+bounds; negative, repeated, unsorted, empty, out-of-range values) are the family of props/c17_wide.py, judged by
+c17_wide_case of Model/ContainersWide.v on position-coded containers and by plain int64 numpy indexing of the raw
+construction arrays (signatures c17-<class>-<axis>-{wrong-selection, counts-and-weights-select-different-patches,
+selection-raises, not-rejected, rejects-with-<exception>, malformed-selection, selection-of-sum-differs,
+selection-sample-differs, selection-mutates-container, selection-mutates-index}:<form>).
 """
 import copy
 import json
@@ -51,12 +60,22 @@ TRUSTED = [
     "recorder of cursor operations (harness/props/c17_cursors.py: run_prog): it executes for / zip / map / list / generator "
     "constructs literally on the real helpers and notes each iter(), each yielded item and each end of a loop; the end of "
     "a zip() is attributed to its first argument (the arguments are ordered by length)",
+    "wide selections (harness/props/c17_wide.py): the position-coded construction arrays (numpy arange + offset, exact in "
+    "float64 below 2^53), the conversion of an index description into the python / numpy object handed to the library, "
+    "the resolution of index values into positions with python integers, plain numpy indexing with int64 position arrays "
+    "as the reference for results too large for Coq",
 ]
 ASSUMPTIONS = [
     "container entries are finite (no NaN / inf); cases whose sampled ratios are non-finite "
     "(zero normalisation) are not compared and are counted as nonfinite_skipped",
-    "index expressions are python ints, slices with a positive step, or lists of python ints "
-    "(numpy integer scalars are outside the documented TypeSliceIndex and are not judged)",
+    "index expressions are python ints, slices with a positive step, lists of python ints; in the wide family also integer "
+    "arrays of the eight numpy integer dtypes (1-dimensional), lists of numpy integer scalars, boolean masks (arrays / lists) "
+    "and slices with numpy integer bounds, all of which numpy documents as index values and which must select by VALUE; "
+    "numpy integer scalars and 0-dimensional arrays are outside the documented TypeSliceIndex: rejecting them with "
+    "ValueError / TypeError / IndexError is accepted (counted as wide-numpy-scalar-rejected), a returned container must be "
+    "the selection of that single index",
+    "wide family: 1 .. 2000 patches / bins; index values within [-n - 50, n + 50] and within the range of their dtype; "
+    "CorrData accepts ints and slices only (arrays, lists and masks must be rejected, as in Model/Containers.v: sd_bins)",
     "sums / products of the generated dyadic entries are exact in float64 and compared exactly; "
     "normalised ratios and estimator values are compared with |impl - model| <= 2^-40 (1 + |model|)",
     "ValueError / TypeError / IndexError count as 'rejected with an error'; any other exception "
@@ -71,7 +90,10 @@ RULE = ("cases = (container class, shape (bins, patches), auto, members, operato
         "index expression or kind of second operand, data seed); distinct by that tuple; non-trivial "
         "when the call reaches array arithmetic / indexing on a container with >= 2 bins or >= 2 patches "
         "or is a rejected operand combination; cursor programs = (objects, program over for / zip / map / list / generators "
-        "/ iter / next / index / len); non-trivial when at some moment >= 2 unfinished iterations over one helper exist")
+        "/ iter / next / index / len); non-trivial when at some moment >= 2 unfinished iterations over one helper exist; "
+        "wide selections = (class, bins, patches, auto, members, coded / random values, axis, representation of the index, "
+        "dtype, layout, index values); non-trivial when the indexed axis has >= 12 entries (from where on the 8-bit types "
+        "cannot hold every flat position)")
 HEADER = "From Verif Require Import Prelude Containers.\nOpen Scope Q_scope.\n"
 
 REJECT = (ValueError, TypeError, IndexError)
@@ -975,6 +997,9 @@ def run(ctx):
     # re-entrant / interleaved use of the helpers of one container object (Model/Cursors.v)
     from props import c17_cursors
     c17_cursors.run(ctx)
+    # many patches / bins, index values in every representation (Model/ContainersWide.v)
+    from props import c17_wide
+    c17_wide.run(ctx)
     ctx.log("checking process done; the same calls with -O / PYTHONOPTIMIZE=1")
     optimised_probe(ctx, cases, results)
 
@@ -984,6 +1009,10 @@ def replay(ctx, body):
     if rp.get("cursors"):
         from props import c17_cursors
         c17_cursors.replay(ctx, rp)
+        return
+    if rp.get("wide"):
+        from props import c17_wide
+        c17_wide.replay(ctx, rp)
         return
     results = run_cases(ctx, [rp["case"]])
     if rp.get("mode"):
